@@ -103,7 +103,9 @@ pub fn read_back<S: IndexedFull>(
                 return ReadBack::Differs(show_key(key), format!("mode {:?} (go layout) != {:o}", node.meta.mode.map(|m| format!("{:o}", crate::model::perm_from_go(m))), e.mode));
             }
             let mt = node.meta.mtime.map(|t| (t.as_second(), t.subsec_nanosecond()));
-            if mt != Some(e.mtime) {
+            // model convention: NO_MTIME stands for "the source reports no modification time"
+            let want = if e.mtime.0 == crate::model::NO_MTIME { None } else { Some(e.mtime) };
+            if mt != want {
                 return ReadBack::Differs(show_key(key), format!("mtime {:?} != {:?}", mt, e.mtime));
             }
             if node.meta.uid != Some(e.uid) || node.meta.gid != Some(e.gid) {
